@@ -76,7 +76,7 @@ StockIndexBefore(startMonth) == ((startMonth - 1) + 11) % 12      \* 0-based ind
 Configs(full) ==
   IF full THEN [reloc : BOOLEAN, expand : BOOLEAN, gh : BOOLEAN, ghDelay : {0, 2, 4}, indDelay : {0, 2, 5}, swDelay : {0, 1, 3},
                 feedMonths : {0, 3, 12}, bioMonths : {0, 2}]
-  ELSE {[reloc |-> r, expand |-> r /\ e, gh |-> g, ghDelay |-> IF g THEN (IF e THEN 4 ELSE 2) ELSE 0, indDelay |-> IF r THEN 2 ELSE 0,
+  ELSE {[reloc |-> r, expand |-> r /\ e, gh |-> g, ghDelay |-> IF g THEN (IF r THEN (IF e THEN 4 ELSE 2) ELSE 0) ELSE 0, indDelay |-> IF r THEN 2 ELSE 0,
          swDelay |-> IF g THEN 1 ELSE 3, feedMonths |-> IF r THEN 3 ELSE 12, bioMonths |-> IF g THEN 2 ELSE 0] :
         r \in BOOLEAN, e \in BOOLEAN, g \in BOOLEAN}
 
